@@ -43,6 +43,16 @@ inductive Err where
 
 abbrev M := Except Err
 
+/-- `require c e` : continue when `c` holds, else fail with `e`.  Every guard of the model is written
+with this combinator so that handlers are linear chains of binds (proof-friendly). -/
+def require (c : Bool) (e : Err) : M Unit := if c then .ok () else .error e
+
+/-- `sdk.AccAddressFromBech32` as a monadic step -/
+def AddrTok.decodeM (t : AddrTok) : M Addr :=
+  match t.decode with
+  | some a => .ok a
+  | none => .error (.err "sdk" 7)
+
 def sdkErr (code : Nat) : Err := .err "sdk" code
 -- sdk error codes used
 def eUnauthorized := sdkErr 4
